@@ -1307,6 +1307,17 @@ class Machine:
                 a, b, v = to_z3(self.num(a)), to_z3(self.num(b)), to_z3(self.num(v))
                 self.assume(z3.ForAll([j], arr[j] == z3.If(z3.And(j >= a, j < b), v, s.elem(j))), qf_also=False)
                 return SymSeq(arr, 0, s.length, s.kind)
+            if name == "bitat":
+                # bit k of c: arithmetic when k is a constant, an uninterpreted symbol (range 0..1) when k is symbolic,
+                # so that code and ghost decoder agree by congruence on symbolic bit positions
+                c, k = self.num(args[0]), self.num(args[1])
+                if isinstance(k, int):
+                    if k < 0:
+                        raise Unsupported("negative bit position")
+                    return simp(to_z3(c) / (1 << k) % 2) if is_z3(c) else (c >> k) % 2
+                t = BITAT(to_z3(c), to_z3(k))
+                self.assume(z3.And(t >= 0, t <= 1))
+                return t
             if name == "copy":
                 # copy(dst, at, src, frm, ln): dst with dst[at+k] = src[frm+k] for 0 <= k < ln
                 dst, at, src, frm, ln = args
@@ -1381,6 +1392,10 @@ class Machine:
                 return self.stream_read(args, node)
             if name == "close":
                 return None
+            if name in ("seek", "tell", "seekable", "truncate", "peek", "fileno", "readinto", "detach"):
+                self.oblige("stream-contract/%s@L%d" % (name, node.lineno), False,
+                            detail="input stream method %s() is not part of the stream contract that files and pipes share "
+                                   "(standard input may be a pipe: not seekable)" % name)
         if isinstance(recv, OutStream):
             if name == "write":
                 return self.stream_write(args[0], node)
@@ -1852,7 +1867,8 @@ class SpecFun:
         self.node = node
 
 
+BITAT = z3.Function("BITAT", z3.IntSort(), z3.IntSort(), z3.IntSort())
 MUL = z3.Function("MUL", z3.IntSort(), z3.IntSort(), z3.IntSort())
 
 BUILTINS = {"ord", "chr", "len", "range", "int", "bytes", "min", "max", "print"}
-SPEC_BUILTINS = {"copy", "inst", "assume", "forall", "exists", "implies", "fmt", "ite", "fill", "store", "seq", "subseq", "as_str", "as_bytes", "as_list"}
+SPEC_BUILTINS = {"bitat", "copy", "inst", "assume", "forall", "exists", "implies", "fmt", "ite", "fill", "store", "seq", "subseq", "as_str", "as_bytes", "as_list"}
